@@ -34,13 +34,7 @@ Theorem mk_wf : forall k d, mk k = Ok d -> wf d.
 Proof.
   intros k d. unfold mk, bind.
   destruct (conv_wd (k_wd k)) as [w|]; [| discriminate].
-  destruct (match truthy (k_nlyearday k) with
-            | Some v => (v, k_leapdays k)
-            | None => match truthy (k_yearday k) with
-                      | Some v => (v, if (59 <? v) && (v <? 366) then -1 else k_leapdays k)
-                      | None => (0, k_leapdays k)
-                      end
-            end) as [yday leap].
+  match goal with |- context [match ?m with pair _ _ => _ end] => destruct m as [yday leap] end.
   destruct (yday =? 0).
   - intro H; inversion H; apply fix_rd_wf.
   - destruct (yday_lookup ydayidx 0 0 yday) as [[mo dd]|]; [| discriminate].
